@@ -132,6 +132,31 @@ def table_rows(frame, ego_q, n, m, divisions):
     return Out(parts=parts, obs={"rows": n_rows})
 
 
+def _n_items(fr):
+    p = fr.pass_fail_result
+    return len(p.tp_object_results) + len(p.fp_object_results) + len(p.tn_objects) + len(p.fn_objects)
+
+
+def table_selections(frame, ego_q, n, m):
+    """Selections of the table by scene / frame index, including index 0 (auxiliary, on path witnesses)."""
+    frs = _frames(frame, ego_q, n, m, 2, [CAR])
+    f0, f1 = frs[0][0], frs[1][0]
+    parts = {"two_frames_evaluated": f0.frame_name == "0" and f1.frame_name == "1"}
+    obs = {"items": [_n_items(f0), _n_items(f1)]}
+    if not symx.is_symbolic() and _n_items(f0) > 0 and _n_items(f1) > 0:
+        an = _analyzer(1)
+        an.add([f0])         # scene 0
+        an.add([f0, f1])     # scene 1 holds frames 0 and 1
+        rows = lambda df: len(df) // 2  # noqa
+        parts["aux_select_scene_0"] = rows(an.get(scene=0)) == _n_items(f0)
+        parts["aux_select_scene_1"] = rows(an.get(scene=1)) == _n_items(f0) + _n_items(f1)
+        parts["aux_select_frame_0"] = rows(an.get(frame=0)) == 2 * _n_items(f0)
+        parts["aux_select_frame_1"] = rows(an.get(frame=1)) == _n_items(f1)
+        parts["aux_select_scene_and_frame"] = rows(an.get(scene=1, frame=0)) == _n_items(f0)
+        parts["aux_no_selection_is_everything"] = rows(an.get()) == 2 * _n_items(f0) + _n_items(f1)
+    return Out(parts=parts, obs=obs)
+
+
 def table_counts(frame, ego_q, n, m):
     """The pandas table itself (auxiliary: evaluated on the real code at the witness of every explored path)."""
     frs = _frames(frame, ego_q, n, m, 1, [CAR, FP])
@@ -174,6 +199,9 @@ def obligations(pid, tier):
                    desc="get_object_status / GroundTruthStatus: each ground truth once per frame; rates in [0,1]"),
         Obligation("table_rows", table_rows, cases=rows, extras=S.frame_extras,
                    desc="PerceptionAnalyzer3D.format2dict rows: ego-frame pose, shared status/frame/scene/area of pairs"),
+        Obligation("table_selections", table_selections, cases=[dict(frame="base_link", ego_q="id", n=1, m=1)] + (
+            [] if quick else [dict(frame="map", ego_q="yaw_3_4_5", n=2, m=1)]), extras=S.frame_extras,
+                   desc="auxiliary: get(scene=…, frame=…) selections of the table, index 0 included, on path witnesses"),
         Obligation("table_counts", table_counts, cases=cnt, extras=S.frame_extras,
                    desc="auxiliary: the pandas table built by add() is compared with the pass/fail lists on the real code "
                         "at the solver-generated witness of every explored path"),
